@@ -158,7 +158,7 @@ class C03(core.Check):
                 items.append([k, a])
         extras = []
         if typ in ("map", "layer", "class", "web") and r.random() < 0.4:
-            extras.append(["metadata", self.gen_kv(r, "metadata", ["key0", "key1", "key2", "wms_title", "ows_enable_request", "b", "a", "10", "9", "z y", "__source_id", "x__", "__"])])
+            extras.append(["metadata", self.gen_kv(r, "metadata", ["key0", "key1", "key2", "wms_title", "ows_enable_request", "b", "a", "10", "9", "z y", "__source_id"])])
         if typ == "layer" and r.random() < 0.15:
             extras.append(["validation", self.gen_kv(r, "validation", ["layer", "default_layer", "b", "a", "2", "10", "__v"])])
         if typ == "layer" and r.random() < 0.1:
